@@ -332,6 +332,21 @@ func genWritePath(t *rapid.T, root *tnode, forUnset bool) []tfSeg {
 }
 
 func tfTreeRoot(t *rapid.T) V {
+	root := tfTreeRoot0(t)
+	if oneIn(t, 15, "deepchain") {
+		cfg := tfTreeCfg()
+		cfg.LongLists = false
+		inner := GenChain(t, cfg, 70)
+		if root.K == KList {
+			root.L = append(root.L, inner)
+		} else if _, dup := root.Field("chain"); !dup {
+			root.O = append(root.O, Pair{"chain", inner})
+		}
+	}
+	return root
+}
+
+func tfTreeRoot0(t *rapid.T) V {
 	cfg := tfTreeCfg()
 	n := drawInt(t, 0, 4, "rootw")
 	var root V
